@@ -12,7 +12,7 @@ DED = ("contract-based deductive verification of the real source (pyvc: ast -> s
 CLAIMS = {
  'C01': ('other', "Deductive: the evaluator _process_step_expression is verified arm by arm against the spec function Sem (induction on expression rank) for transitive-free expressions, "
          "Model.get_associated_assets_by_field_name against field navigation on the model view (self-links, both orientations), is_subasset_of against the "
-         "reflexive-transitive closure incl. termination. Bounded: the transitive arm, the linking loop of _generate_graph and termination on cyclic models are decided by the floor "
+         "reflexive-transitive closure incl. termination, _get_variable_for_asset_type_by_name against the nearest declaration up the inheritance chain of the specification (raises iff none). Bounded: the transitive arm, the linking loop of _generate_graph and termination on cyclic models are decided by the floor "
          "(languages <=3 types, expression depth <=3, models <=3 assets incl. cycles and self-links).", '4 C01'),
  'C02': ('other', "Deductive: add_node (id assignment, duplicate-id rejection, both indexes), full_name, the lookups and lemma LOOKUP (a lookup returns exactly the member with that key). "
          "Bounded: the node loop of _generate_graph (one node per asset x step, attributes, existence status) is decided by the floor.", '4 C02'),
